@@ -246,6 +246,56 @@ def run_mac(joint, xs, how):
     return "O %s T %s" % (",".join(str(int(t)) for t in out.flatten().tolist()), _tr(trace))
 
 
+def run_macid(joint, xs):
+    """pass-through encoders; users with equal values share ONE tensor object; the model is run twice on the same list"""
+    import torch
+    from kaira.models.multiple_access_channel import MultipleAccessChannelModel
+    from kaira.models.base import BaseModel
+    from kaira.channels.base import BaseChannel
+    from kaira.constraints.base import BaseConstraint
+    trace = []
+
+    def val(t):
+        return int(t.flatten()[0].item())
+
+    class Thru(BaseModel):
+        def __init__(self, s):
+            super().__init__(); self.s = s
+
+        def forward(self, a, *args, **kw):
+            trace.append((self.s, val(a)))
+            return a
+
+    class Rec(BaseModel):
+        def __init__(self, s):
+            super().__init__(); self.s = s
+
+        def forward(self, a, *args, **kw):
+            trace.append((self.s, val(a)))
+            return torch.full((1, 1), sf(0, self.s, val(a)), dtype=torch.int64)
+
+    class RecCh(BaseChannel):
+        def forward(self, a, *args, **kw):
+            trace.append((201, val(a)))
+            return torch.full((1, 1), sf(0, 201, val(a)), dtype=torch.int64)
+
+    class RecCo(BaseConstraint):
+        def forward(self, a, *args, **kw):
+            trace.append((200, val(a)))
+            return torch.full((1, 1), sf(0, 200, val(a)), dtype=torch.int64)
+    n = len(xs)
+    m = MultipleAccessChannelModel(encoders=[Thru(100 + i) for i in range(n)], decoders=[Rec(300)] if joint else [Rec(300 + i) for i in range(n)],
+                                   channel=RecCh(), power_constraint=RecCo(), num_devices=n)
+    objs = {}
+    inp = [objs.setdefault(x, torch.full((1, 1), x, dtype=torch.int64)) for x in xs]
+    parts = []
+    for _ in range(2):
+        del trace[:]
+        out = m(inp)
+        parts.append("O %s T %s" % (",".join(str(int(t)) for t in out.flatten().tolist()), _tr(trace)))
+    return " | ".join(parts) + " | X " + ",".join(str(val(t)) for t in inp)
+
+
 # ------------------------------------------------------------------ independent reference (list model in Python)
 def ref_seq(v, e, init, ops):
     steps = list(init)
@@ -356,6 +406,14 @@ def _cases(ctx):
         for joint in (0, 1):
             for how in (0, 1):
                 yield ("mac", joint, tuple(rng.randrange(1000) for _ in range(n)), how)
+    for n in range(1, 5):
+        for joint in (0, 1):
+            v = rng.randrange(1, 1000)
+            yield ("macid", joint, tuple([v] * n))                                   # one tensor object for every user
+            yield ("macid", joint, tuple(rng.randrange(1, 1000) for _ in range(n)))      # distinct objects
+            if n >= 3:
+                w = rng.randrange(1, 1000)
+                yield ("macid", joint, tuple([v, w] + [v] * (n - 2)))                # user 0's tensor again for a later user
 
 
 def _line(c):
@@ -375,6 +433,8 @@ def _line(c):
         return "br %d %d %s" % (v, e, " ".join(ops))
     if k == "fb":
         return "fb %d %d %d" % (c[1], c[2], c[3])
+    if k == "macid":
+        return "macid %d %s" % (c[1], ",".join(map(str, c[2])))
     return "mac %d %s" % (c[1], ",".join(map(str, c[2])))
 
 
@@ -392,6 +452,8 @@ def _impl(c):
         return run_br(c[1], c[2], c[3])
     if k == "fb":
         return run_fb(c[1], c[2], c[3])
+    if k == "macid":
+        return run_macid(c[1], c[2])
     return run_mac(c[1], c[2], c[3])
 
 
@@ -447,6 +509,15 @@ def _oracle(c):
             out = dec
         return "O %s T %s" % (out, _tr(tr))
     joint, xs = c[1], c[2]
+    if k == "macid":
+        tr = [(100 + i, x) for i, x in enumerate(xs)]
+        comb = sum(xs)
+        tr.append((200, comb)); con = sf(0, 200, comb)
+        tr.append((201, con)); rec = sf(0, 201, con)
+        decs = [300] if joint else [300 + i for i in range(len(xs))]
+        tr += [(d, rec) for d in decs]
+        one = "O %s T %s" % (",".join(str(sf(0, d, rec)) for d in decs), _tr(tr))
+        return one + " | " + one + " | X " + ",".join(map(str, xs))
     tr = [(100 + i, x) for i, x in enumerate(xs)]
     comb = sum(sf(0, 100 + i, x) for i, x in enumerate(xs))
     tr.append((200, comb)); con = sf(0, 200, comb)
@@ -497,7 +568,7 @@ def corr(ctx):
             ctx.count("par_n%d" % len(c[4]))
             ctx.count("par_workers_%s" % c[7])
         _CASES.setdefault(line, []).append(c)
-        nontriv = {"seq": lambda: impl.count(":") >= 2, "named": lambda: True, "par": lambda: len(c[4]) >= 2, "br": lambda: "E -" not in impl, "fb": lambda: c[2] >= 1, "mac": lambda: True}[c[0]]()
+        nontriv = {"seq": lambda: impl.count(":") >= 2, "named": lambda: True, "par": lambda: len(c[4]) >= 2, "br": lambda: "E -" not in impl, "fb": lambda: c[2] >= 1, "mac": lambda: True, "macid": lambda: True}[c[0]]()
         ops.append(Op(line, impl, nontrivial=nontriv, info={"site": "models:" + c[0], "config": {"case": repr(c)[:300]}}))
     return ops
 
